@@ -6,13 +6,24 @@ RULE = ('ALL matrices 2x1, 3x1, 4x1, 2x2, 3x2, 4x2 (thorough: + 5x1, 5x2 slice, 
         'hnf_with_ker + HNF::kernel; structured random matrices with emphasis on n > rank (planted rank deficiency, zero rows, duplicated rows, '
         'single gcd-structured columns, tall matrices), entries up to 2^64 and a few 2^200; edge stream (empty, n x 0, ragged). '
         'non-trivial = the kernel is non-zero')
-PROVED = []
-NOT_PROVED = ['everything (first milestone: executable model + correspondence only)']
+PROVED = [
+    'kernel_terminates / hnf_with_ker_terminates [P]: no panic, fuel sufficient, on every rectangular n x m input (n, m >= 1)',
+    'hnf_U_unimodular [P]: U is n x n, exists V with V*U = I and U*V = I (product of elementary row operations), U*A = [0_k ; H], k = n - #rows H',
+    'kernel_annihilates [P]: HNF::kernel = first k rows of U, each annihilated by A, count k = n - #rows H',
+    'kernel_basis [P]: the kernel rows are Z-linearly independent and every integer x with x*A = 0 is an integer combination of them (saturated basis)',
+    'kernel_empty_when_independent [P]',
+]
+NOT_PROVED = [
+    'det U = +-1 as a determinant statement (proved in the equivalent form: two-sided integer inverse); checked by the oracle (Bareiss) on every case',
+    'k = n - rank(A) with rank over Q: proved as k = n - #rows H with the rows of H an independent generating set (C02); rank over Qc not formalised (oracle-checked)',
+]
 
 CLAIM = dict(
-    technique='Coq proof about the Gallina model of hnf_with_u/hnf_with_ker/HNF::kernel + extracted-model-vs-implementation correspondence',
-    text='Model coq/Model/Hnf.v mirrors hnf.rs line by line; the extracted model and impl_svc agree on all explored inputs.',
-    note='first milestone: no theorem yet',
+    technique='Coq proof about the Gallina model of hnf_with_u/hnf_with_ker/HNF::kernel (coq/Model/Hnf.v, coq/Refine/HnfMain.v, HnfKernel.v) + extracted-model-vs-implementation correspondence',
+    text='For all integer matrices with n, m >= 1: U has a two-sided integer inverse and U*A = [0_k ; H]; HNF::kernel returns the first k rows of U, which are annihilated by A, '
+         'linearly independent and generate every integer solution of x*A = 0; k = n - #rows H, empty when the rows of A are independent. '
+         'Model tied to /repo by the correspondence runs (exhaustive small tall matrices, planted rank deficiency up to 2^200, edge stream).',
+    note='Unimodularity is proved as existence of an integer inverse, not as det = +-1; rank over Q is oracle-checked only.',
     ref='DESIGN.md section 4, C03')
 
 def has_kernel(a):
@@ -36,7 +47,7 @@ def cases(rng, tier):
         batch_cases(([[rng.randrange(-2, 3) for _ in range(m)] for _ in range(n)] for (n, m) in [(4, 2), (5, 1), (3, 3), (4, 3), (5, 2)] for _ in range(1500)), 'slice-tall')
     def add(tag, a):
         out.append(Case('hnf_u_ker', line('hnf_u_ker', a), oracle=H.o_u_ker(a), always_oracle=True, nontrivial=has_kernel(a), tag=tag))
-    cnt = 500 if not th else 5000
+    cnt = 1000 if not th else 5000
     for _ in range(cnt):
         # emphasis on n > rank
         m = rng.randrange(1, 6); r = rng.randrange(0, m + 1); n = r + rng.randrange(1, 5)
